@@ -25,13 +25,26 @@ U8OK = z3.Function('utf8_valid', BytesSort, z3.BoolSort())
 CHARLEN = z3.Function('str_len', UStr, z3.IntSort())
 
 
+def codec_fns(enc, errors):
+    """the uninterpreted codec pair for the (canonical) codec name and error mode: only encode and decode under the SAME
+    name are an inverse pair (utf-8 written and utf-8-sig read is not a round trip)"""
+    from pyvc.lib import codec_tag
+    tag = codec_tag(enc, errors)
+    if tag == '':
+        return U8ENC, U8DEC, U8OK
+    return (z3.Function('encode' + tag, UStr, BytesSort), z3.Function('decode' + tag, BytesSort, UStr),
+            z3.Function('valid' + tag, BytesSort, z3.BoolSort()))
+
+
 def str_encode_hook(ip, s, enc, errors):
     from pyvc.lib import used
     used(ip, 'utf-8 codec: decode(encode(s)) = s, encode output is valid utf-8 (uninterpreted pair over an opaque string sort)')
     if isinstance(s, str):
         return s.encode(enc)
-    r = U8ENC(s.t)
-    ip.ctx.assume(z3.And(U8DEC(r) == s.t, U8OK(r)))
+    ENC, DEC, OK = codec_fns(enc, errors)
+    r = ENC(s.t)
+    if errors == 'strict':
+        ip.ctx.assume(z3.And(DEC(r) == s.t, OK(r)))
     n = ip.ctx.fresh('utf8_len', z3.IntSort())
     ip.ctx.assume(n >= 0)
     # utf-8: one to four bytes per character
@@ -47,9 +60,10 @@ def bytes_decode_hook(ip, b, enc, errors):
         except UnicodeDecodeError:
             ip.ctx.raise_exc('UnicodeDecodeError')
     t = z3.simplify(b.t)
-    if not ip.ctx.branch(ops.sbool(U8OK(t))):
+    ENC, DEC, OK = codec_fns(enc, errors)
+    if errors == 'strict' and not ip.ctx.branch(ops.sbool(OK(t))):
         ip.ctx.raise_exc('UnicodeDecodeError')
-    return Sym(U8DEC(t), 'str')
+    return Sym(DEC(t), 'str')
 
 
 def str_len_hook(ip, s):
@@ -97,11 +111,35 @@ def consumed_exactly(stream, ghost):
     return S.bool(S.term(stream.pos, 'int') == ghost.enc_len)
 
 
+def replay_strings(label, model):
+    """opaque strings have no model value: natively, a fixed set of awkward strings (empty, NUL, BOM first / inside, 2-, 3- and
+    4-byte characters, long) goes through the real writer and reader, alone and inside a list and a dict"""
+    return '''
+import sys, io
+from mpgameserver.serializable import serialize_value, deserialize_value
+STRS = ["", "a", "\\x00", "\\ufeffhello", "a\\ufeffb", "\\u00e9", "\\u4e16\\u754c", "\\U0001F600", "x" * 300, "\\u00e9" * 200]
+values = list(STRS) + [[s] for s in STRS] + [{1: s} for s in STRS] + [[s, s + "!"] for s in STRS]
+bad = []
+for v in values:
+    try:
+        s = io.BytesIO(); serialize_value(s, v); enc = s.getvalue()
+        r = io.BytesIO(enc + b"tail"); w = deserialize_value(r)
+        if w != v: bad.append("%r decoded as %r" % (v, w))
+        elif r.tell() != len(enc): bad.append("%r: %d bytes written, %d consumed" % (v, len(enc), r.tell()))
+    except Exception as e:
+        bad.append("%r: %r" % (v, e))
+for b in bad[:6]: print(b[:200])
+print("%d of %d string values do not survive the round trip" % (len(bad), len(values)))
+sys.exit(1 if bad else 0)
+'''
+
+
 def leaf_contract(name, make_value, same):
     def setup(E):
         return reader_setup(E, make_value(E))
     body = {
         'setup': setup,
+        'replay': replay_strings if 'str' in name or 'dict' in name else None,
         'hooks': STR_HOOKS,
         'ensures': {
             'decodes-to-an-equal-value': lambda result, ghost: same(result, ghost.value),
